@@ -330,9 +330,8 @@ pub fn gen_script(rng: &mut Rng, maxlen: usize) -> String {
 }
 
 /// Scripts restricted to what `Spec/VarSpec.lean` specifies: names from the universe (first
-/// character `A`..`Z`), no `Return`/`Next` values, subscripts that are strings or numbers whose
-/// floor lies in -32768..32767 (beyond that the code answers OVERFLOW where the property says
-/// SUBSCRIPT OUT OF RANGE: see `witnesses`), DEFtype only with letters `A`..`Z`, from ≤ to, and only
+/// character `A`..`Z`), no `Return`/`Next` values, any subscript that is a number (also beyond the
+/// Integer range, NaN, infinite) or a string, DEFtype only with letters `A`..`Z`, from ≤ to, and only
 /// while no undecorated variable or element has been assigned since the last `clear` (the property
 /// does not say what DEFtype does to existing values).
 pub fn gen_spec_script(rng: &mut Rng, maxlen: usize) -> String {
@@ -347,14 +346,16 @@ pub fn gen_spec_script(rng: &mut Rng, maxlen: usize) -> String {
         }
     };
     let sub = |rng: &mut Rng, bound: i32| loop {
-        let s = subscript(rng, bound);
-        let ok = match read_val(&s) {
-            Some(Val::Integer(_)) | Some(Val::String(_)) => true,
-            Some(Val::Single(x)) => x.floor() >= -32768.0 && x.floor() <= 32767.0,
-            Some(Val::Double(x)) => x.floor() >= -32768.0 && x.floor() <= 32767.0,
-            _ => false,
+        let s = if rng.chance(1, 12) {
+            (*rng.pick(&[
+                "S47000000", "Sc7000100", "D40e0000000000000", "Dc0e0002000000000", "S7f800000", "Sff800000",
+                "S7fc00000", "D7ff8000000000000", "D7ff0000000000000", "S4f000000", "D7fefffffffffffff", "I32767", "I-32768",
+            ]))
+            .to_string()
+        } else {
+            subscript(rng, bound)
         };
-        if ok {
+        if !s.starts_with('R') && !s.starts_with('N') {
             return s;
         }
     };
@@ -363,7 +364,23 @@ pub fn gen_spec_script(rng: &mut Rng, maxlen: usize) -> String {
         let aname = if rng.chance(1, 12) { *rng.pick(SCALARS) } else { *rng.pick(ARRAYS) };
         let cnt = if rng.chance(1, 10) { rng.below(5) } else { 1 + rng.below(2) };
         let bound = *rng.pick(&[10, 10, 10, 2, 5, 11, 20]);
-        let mut subs = |rng: &mut Rng| -> String { (0..cnt).map(|_| format!(" {}", sub(rng, bound))).collect() };
+        // The code converts subscripts left to right, so a list that mixes a string with a number
+        // beyond the Integer range answers whichever comes first (TYPE MISMATCH or SUBSCRIPT OUT OF
+        // RANGE); the specification does not order the two: such lists are all-numeric here.
+        let mut subs = |rng: &mut Rng| -> String {
+            let v: Vec<String> = (0..cnt).map(|_| sub(rng, bound)).collect();
+            let has_str = v.iter().any(|x| x.starts_with('T'));
+            v.iter()
+                .map(|x| {
+                    let wild = match read_val(x) {
+                        Some(Val::Single(f)) => !(f.floor() >= -32768.0 && f.floor() <= 32767.0),
+                        Some(Val::Double(f)) => !(f.floor() >= -32768.0 && f.floor() <= 32767.0),
+                        _ => false,
+                    };
+                    if has_str && wild { " I3".to_string() } else { format!(" {}", x) }
+                })
+                .collect()
+        };
         match rng.below(100) {
             0..=24 => {
                 dirty |= undecorated(sname);
@@ -376,9 +393,11 @@ pub fn gen_spec_script(rng: &mut Rng, maxlen: usize) -> String {
             }
             60..=74 => ops.push(format!("fetcharr {}{}", name_hex(aname), subs(rng))),
             75..=82 => {
-                let s: String = (0..cnt)
-                    .map(|_| if rng.chance(1, 10) { format!(" {}", sub(rng, bound)) } else { format!(" I{}", dim_bound(rng)) })
-                    .collect();
+                let s: String = if rng.chance(1, 8) {
+                    subs(rng)
+                } else {
+                    (0..cnt).map(|_| format!(" I{}", dim_bound(rng))).collect()
+                };
                 ops.push(format!("dim {}{}", name_hex(aname), s));
             }
             83..=88 => ops.push(format!("erase {}", name_hex(aname))),
@@ -399,22 +418,28 @@ pub fn gen_spec_script(rng: &mut Rng, maxlen: usize) -> String {
     ops.join(";")
 }
 
-/// Real-code behaviour that the property's wording does not cover or contradicts (tag `W`):
-/// never part of the routine layers.
+/// Former witnesses (a subscript beyond the Integer range used to be OVERFLOW; repaired in /repo by
+/// "fix: a subscript beyond the Integer range is SUBSCRIPT OUT OF RANGE"): now regression lines that
+/// model, specification and code must agree on.  Also part of `corpus()`.
 pub fn witnesses() -> Vec<String> {
     let a = hex("A");
     vec![
-        // a subscript of 32768 (or above) is OVERFLOW, not SUBSCRIPT OUT OF RANGE
         format!("dim {a} I5;fetcharr {a} S47000000"),
         format!("fetcharr {a} D40e0000000000000"),
-        // ... and so is -32769 (the property: anything outside 0..bound is SUBSCRIPT OUT OF RANGE)
         format!("fetcharr {a} Sc7000100"),
+        format!("fetcharr {a} S7fc00000;fetcharr {a} D7ff0000000000000;fetcharr {a} Sff800000"),
+        format!("storearr {a} I1 S47000000;storearr {a} I1 I3 D40e0000000000000;fetcharr {a} I3 I3"),
+        format!("dim {a} S47000000;dim {a} I5 D7ff8000000000000;dim {a} I32767;dim {a} I1"),
+        format!("fetcharr {a} S47000000 T41;fetcharr {a} T41 S47000000"),
     ]
 }
 
 pub fn gen_witness<W: Write>(w: &mut W, _tier: &str, _seed: u64) {
     for s in witnesses() {
-        emit(w, "W", &format!("VARSPEC {}", s));
+        emit(w, "K", &format!("VAR {}", s));
+        if !s.contains(" T41") {
+            emit(w, "F", &format!("VARSPEC {}", s));
+        }
     }
 }
 
@@ -506,6 +531,7 @@ pub fn corpus() -> Vec<String> {
     // the automatic dimension stays after a failed first use
     v.push(format!("storearr {a} I1 I11;dim {a} I20;storearr {a} I1 I10"));
     v.push(format!("storearr {ai} T41 I1;fetcharr {ai} I1 I1;dim {ai} I3"));
+    v.extend(witnesses());
     v
 }
 
@@ -513,6 +539,11 @@ pub fn gen_scripts<W: Write>(w: &mut W, tier: &str, seed: u64) {
     let mut rng = Rng::new(seed ^ 0x7A12);
     for s in corpus() {
         emit(w, "K", &format!("VAR {}", s).trim_end().to_string());
+    }
+    for s in witnesses() {
+        if !s.contains(" T41") {
+            emit(w, "F", &format!("VARSPEC {}", s));
+        }
     }
     let n = if tier == "thorough" { 200_000 } else { 5_000 };
     for i in 0..n {
